@@ -2,7 +2,7 @@
 # usage: merge_ext_files.sh <TAG> <file>...   — take the extension agent's version of an existing file when
 # /verif has not changed it since the agents' snapshot commit; otherwise try a 3-way merge (git merge-file).
 tag=$1; shift
-base=$(git -C /verif log --format=%h --grep "extension agent brief" | tail -1)
+base=${BASE:-$(git -C /verif log --format=%h --grep "extension agent brief" | tail -1)}
 for f in "$@"; do
   src=/tmp/ext/$tag/verif/$f
   if git -C /verif diff --quiet $base HEAD -- "$f" && git -C /verif diff --quiet -- "$f"; then
